@@ -217,7 +217,14 @@ func validateSiacoins(ms *MidState, txn types.Transaction, ts V1TransactionSuppl
 		} else if parent.MaturityHeight > ms.base.childHeight() {
 			return fmt.Errorf("siacoin input %v has immature parent", i)
 		}
-		inputSum = inputSum.Add(parent.SiacoinOutput.Value)
+		// NOTE: outputs created by v2 transactions below the ephemeral output
+		// height are not bounded by the total supply, so this addition must be
+		// checked explicitly
+		var overflow bool
+		inputSum, overflow = inputSum.AddWithOverflow(parent.SiacoinOutput.Value)
+		if overflow {
+			return errors.New("siacoin inputs overflow")
+		}
 	}
 	var outputSum types.Currency
 	for _, out := range txn.SiacoinOutputs {
